@@ -25,7 +25,7 @@ ASSUMPTIONS = ["sha256 via hashlib is the content address", "remove() is only is
 
 CONTENTS = [b"a,b\n1,2\n", b"a,b\n1,2\n3,4\n", b"x;y\n9;8\n"]
 NAMES = ["orders", "people"]
-SOURCES = ["first.csv", "second.csv"]
+SOURCES = ["first.csv", "second.2024-03.csv"]  # (a source file name with more than one dot)
 
 
 def sha(b):
@@ -152,7 +152,8 @@ def check_store(cs, model, hashes, w):
             w["name"] = name
             w["file"] = p
             return "current-version-has-wrong-bytes"
-        if os.path.basename(p) != h + ".csv":
+        bn = os.path.basename(p)
+        if not (bn.startswith(h + ".") and bn.endswith(".csv")):
             w["file"] = p
             w["sha256"] = h
             return "file-name-is-not-the-hash"
@@ -177,8 +178,10 @@ def check_store(cs, model, hashes, w):
             return "fingerprint-for-name"
         # every version ever registered is still there, unmodified
         for s_, h_ in model.stored[n]:
-            vp = os.path.join(base, name, SOURCES[s_], h_ + ".csv")
-            if not os.path.exists(vp):
+            vdir = os.path.join(base, name, SOURCES[s_])
+            found = [f_ for f_ in (os.listdir(vdir) if os.path.isdir(vdir) else []) if f_.startswith(h_ + ".")]
+            vp = os.path.join(vdir, found[0] if found else h_ + ".csv")
+            if not found:
                 w["version"] = vp
                 return "stored-version-disappeared"
             with open(vp, "rb") as f:
